@@ -548,7 +548,7 @@ static int vsink_control(struct upipe *upipe, int command, va_list args)
         printf("sink %s register %s type=%d\n", s->name, req_name(r), r->type);
         if (s->reqmode == 2) return UBASE_ERR_UNHANDLED;
         if (s->reqmode == 1) return upipe_throw_provide_request(upipe, r);
-        if (s->nregs < 16) s->regs[s->nregs++] = r;
+        if (s->nregs < 16) { static unsigned long serial; s->regserial[s->nregs] = ++serial; s->regs[s->nregs++] = r; }
         /* mode 3 (answer): the sink answers from inside register_request, as most real sinks do */
         if (s->reqmode == 3) return provide(r, s->name);
         return UBASE_ERR_NONE;
@@ -557,7 +557,7 @@ static int vsink_control(struct upipe *upipe, int command, va_list args)
         struct urequest *r = va_arg(args, struct urequest *);
         printf("sink %s unregister %s type=%d\n", s->name, req_name(r), r->type);
         for (int i = 0; i < s->nregs; i++)
-            if (s->regs[i] == r) { s->regs[i] = s->regs[--s->nregs]; break; }
+            if (s->regs[i] == r) { s->regs[i] = s->regs[--s->nregs]; s->regserial[i] = s->regserial[s->nregs]; break; }
         return UBASE_ERR_NONE;
     }
     default:
